@@ -3,7 +3,7 @@
    applied to the fftshift-ordered spectrum with a = ft * N bins (Model/Shift.shift_idx false). *)
 From Coq Require Import ZArith QArith Qround Qabs List Bool Reals.
 From Coquelicot Require Import Complex.
-From PB Require Import Lib.PySlice Lib.Dft Lib.DftC Model.Shift Proofs.ShiftProofs Proofs.ShiftC.
+From PB Require Import Lib.PySlice Lib.Dft Lib.DftC Model.Shift Proofs.ShiftProofs Proofs.ShiftC Gen.GenShift Proofs.ShiftGen.
 Import ListNotations.
 Open Scope Z_scope.
 
@@ -45,8 +45,18 @@ Example C04_witness :     (* scalar shift of 2.5 bins on sample shape (2,2): all
   shift_idx_flat false 8 [2; 2] [1] [(5 # 2)%Q] = [0; 3; 0; 3; 8; 0; 3; 0; 3; 0; 3; 0; 3].
 Proof. vm_compute. reflexivity. Qed.
 
+
+(* tie to the source by translation (T6): the per-element logic of the zero-fill loop of freq_shift (sign test, floor / ceil, which
+   slice of the fftshifted spectrum is set to zero; nothing is accumulated) and the sign of the mixing ramp are GENERATED from
+   transforms.freq_shift on this run *)
+Theorem C04_generated_zero_range : forall N a st, zero_range N a = zr_of N (snd (gen_fshift_step st a)) /\ fst (gen_fshift_step st a) = st.
+Proof. exact (fun N a st => conj (zero_range_generated_f N a st) (fshift_step_state st a)). Qed.
+Theorem C04_generated_ramp_sign : forall b m, b * m = gen_fshift_sign * (b * m).
+Proof. exact fshift_ramp_generated. Qed.
+
 Print Assumptions C04_zero_exact.
 Print Assumptions C04_every_element.
 Print Assumptions C04_whole_bins.
 Print Assumptions C04_full_band.
 Print Assumptions C04_modulation.
+Print Assumptions C04_generated_zero_range.
